@@ -30,7 +30,7 @@ BUDGET_S = {"quick": 80, "thorough": 1500}
 
 
 def gen_cases(seed, tier):
-    n = 260 if tier == "quick" else 8000
+    n = 400 if tier == "quick" else 8000
     out = []
     for i in range(n):
         ss = stream_seeds(seed, ID, i)
